@@ -293,7 +293,7 @@ def _body(ctx, case, d, cache):
 
 
 def sub_fan(ctx):
-    ctx.hyp(history(), lambda c: body(ctx, c), ctx.n(500, 8000), shrink_budget=60)
+    ctx.hyp(history(), lambda c: body(ctx, c), ctx.n(1200, 8000), shrink_budget=60)
 
 
 def _k_evict_reopen(sub, case, message, detail):
